@@ -288,6 +288,7 @@ def run(check, mirror, tier):
                             ("x in (b, c) is the disjunction of the tests", T(r[3]) == z3.If(z3.Or(T(r[1]) == 1, T(r[2]) == 1), 1, 0))] +
                            ([("x in not(b, c) is the negation of the disjunction", T(r[4]) == z3.If(z3.Or(T(r[1]) == 1, T(r[2]) == 1), 0, 1))] if kind != "Date" else []))
     wiring_job(check, mirror, rb, crate, jobs)
+    evaluation_job(check, mirror, rb, crate, jobs, U)
     run_parallel(check, jobs)
 
 
@@ -379,6 +380,181 @@ KNOWN_PRED = {}
 
 
 # ----------------------------------------------------------------------------- which tests a rule's input entry is compiled to
+
+
+def evaluation_job(check, mirror, rb, crate, jobs, U):
+    """build_decision_table_evaluator is executed with parse_decision_table replaced by a symbolic parsed table (0..3 rules, 0..2 input
+    entry evaluators and one output entry evaluator per rule, all oracles returning arbitrary values); the closure it returns is then run.
+    The eleven evaluate_hit_policy_* functions are loggers.  Obligations: the table handed to the hit policy has one evaluated rule per rule,
+    in rule order, each matching iff ALL its input entries evaluated to true, with the outputs its output entry evaluators gave; exactly one
+    hit-policy function is called and it is the one the table's hit policy (and aggregator) names."""
+    import rsenum
+    from mir.models import call_fn_value
+    src_m = mirror.read("model/src/model/mod.rs")
+    f_dt = rsenum.struct_fields(src_m, "DecisionTable")
+    src = mirror.read("model-evaluator/src/builders/decision_table.rs")
+    f_pdt = rsenum.struct_fields(src, "ParsedDecisionTable")
+    f_prule = rsenum.struct_fields(src, "ParsedRule")
+    f_edt = rsenum.struct_fields(src, "EvaluatedDecisionTable")
+    f_erule = rsenum.struct_fields(src, "EvaluatedRule")
+    HP = rsenum.enums_of(src_m)["HitPolicy"]
+    AG = rsenum.enums_of(src_m)["BuiltinAggregator"]
+    NR, NI = 3, 2
+    WANT = {"Unique": "unique", "Any": "any", "Priority": "priority", "First": "first", "RuleOrder": "rule_order", "OutputOrder": "output_order"}
+    check.bounds.append("evaluation: 0..%d rules with 0..%d input entries and one output entry each, every hit policy and aggregator; entry values arbitrary (true / false / null)" % (NR, NI))
+    check.assumptions.append("evaluation: parse_decision_table replaced by a symbolic parsed table, entry evaluators are oracles, evaluate_hit_policy_* are loggers")
+    BOOL, NULL, NUMB = U.idx("Boolean"), U.idx("Null"), U.idx("Number")
+
+    def setup(ex, st):
+        nr = ex.fresh_int(st, "usize", "n_rules", constrain=False)
+        ni = ex.fresh_int(st, "usize", "n_inputs", constrain=False)
+        ex.assume(st, z3.And(nr.e >= 0, nr.e <= NR, ni.e >= 0, ni.e <= NI))
+        hp = ex.fresh_int(st, "isize", "hit_policy", constrain=False)
+        ag = ex.fresh_int(st, "isize", "aggregator", constrain=False)
+        ex.assume(st, z3.Or([hp.e == v for v in HP.values()]))
+        ex.assume(st, z3.Or([ag.e == v for v in AG.values()]))
+        inputs = dict(n_rules=nr.e, n_inputs=ni.e, hit_policy=hp.e, aggregator=ag.e)
+        kinds = {}
+
+        def entry(r, i):
+            k = ex.fresh_int(st, "isize", "r%d_in%d_kind" % (r, i), constrain=False)    # 0 true, 1 false, 2 null
+            ex.assume(st, z3.And(k.e >= 0, k.e <= 2))
+            kinds[(r, i)] = k.e
+            inputs["r%d_in%d" % (r, i)] = k.e
+            val = En("Value", z3.If(k.e == 2, z3.IntVal(NULL), z3.IntVal(BOOL)), {"Boolean": (Sc(k.e == 0, "bool"),), "Null": (none(),)})
+
+            def cb(ex, st, argv):
+                st.log.append(("input_entry", r, i))
+                yield st, val
+            return Ref(ex.new_cell(st, FnV("@model", (cb,)), "box"))
+
+        def outev(r):
+            val = En("Value", z3.IntVal(NUMB), {"Number": (Opaque("FeelNumber", z3.IntVal(1000 + r)),)})
+
+            def cb(ex, st, argv):
+                st.log.append(("output_entry", r))
+                yield st, val
+            return Ref(ex.new_cell(st, FnV("@model", (cb,)), "box"))
+        rules = []
+        for r in range(NR):
+            rv = {"input_entries_evaluators": VecV(ni.e, [entry(r, i) for i in range(NI)], "Evaluator"), "output_entries_evaluators": VecV(z3.IntVal(1), [outev(r)], "Evaluator")}
+            rules.append(Adt("struct", "ParsedRule", [rv[f] for f in f_prule]))
+        pvals = {"component_names": VecV(z3.IntVal(0), (), "Name"), "output_values_evaluators": VecV(z3.IntVal(0), (), "T"),
+                 "default_output_values_evaluators": VecV(z3.IntVal(0), (), "T"), "rules": VecV(nr.e, rules, "ParsedRule")}
+        missing = [f for f in f_pdt if f not in pvals]
+        if missing:
+            raise MirUnsupported("ParsedDecisionTable has fields the model does not know: %s" % missing)
+        pdt = Adt("struct", "ParsedDecisionTable", [pvals[f] for f in f_pdt])
+        hpv = En("HitPolicy", hp.e, {k: ((En("BuiltinAggregator", ag.e, {a: () for a in AG}),) if k == "Collect" else ()) for k in HP})
+        dvals = {f: Opaque("unused", f) for f in f_dt}
+        dvals["hit_policy"] = hpv
+        dt = Ref(ex.new_cell(st, Adt("struct", "DecisionTable", [dvals[f] for f in f_dt]), "dt"))
+        scope = Ref(ex.new_cell(st, Opaque("Scope"), "scope"))
+        inputs["_kinds"] = kinds
+
+        def m_parse_table(ex, st, callee, args, dest_ty):
+            yield st, En("Result", z3.IntVal(0), {"Ok": (pdt,)})
+
+        def m_policy(ex, st, callee, args, dest_ty):
+            st.log.append(("policy", callee.rsplit("evaluate_hit_policy_", 1)[1], deref(ex, st, args[0])))
+            yield st, En("Value", z3.IntVal(NULL), {"Null": (none(),)})
+
+        def runner(ex, st):
+            ex.models.insert(0, (re.compile(r"(^|::)parse_decision_table$"), m_parse_table))
+            ex.models.insert(0, (re.compile(r"EvaluatedDecisionTable::evaluate_hit_policy_\w+$"), m_policy))
+            for st1, k in ex.enum_values(st, ni.e, limit=NI + 2):
+                st1.log.append(("n_inputs", k))
+                for o in ex.run("decision_table::build_decision_table_evaluator", [scope, dt], st1):
+                    if o.kind != "return":
+                        yield o
+                        continue
+                    r = o.value
+                    if ex.concrete(r.disc) != 0:
+                        raise MirUnsupported("the builder did not return Ok")
+                    f = r.alts["Ok"][0]
+                    yield from call_fn_value(ex, o.st, f, [scope])
+        return runner, None, inputs
+
+    def post(ex, o, v):
+        pol = [e for e in o.st.log if e[0] == "policy"]
+        props = [("exactly one hit-policy function is called", z3.BoolVal(len(pol) == 1))]
+        if len(pol) != 1:
+            return props
+        _, name, edt = pol[0]
+        want = z3.BoolVal(False)
+        for k, code in HP.items():
+            if k == "Collect":
+                for a, acode in AG.items():
+                    want = z3.Or(want, z3.And(v["hit_policy"] == code, v["aggregator"] == acode, z3.BoolVal(name == "collect_" + a.lower())))
+            else:
+                want = z3.Or(want, z3.And(v["hit_policy"] == code, z3.BoolVal(name == WANT.get(k))))
+        props.append(("the function called is the one the hit policy and aggregator name (called: %s)" % name, want))
+        er = edt.fields[f_edt.index("evaluated_rules")]
+        n = ex.concrete(er.len)
+        props.append(("one evaluated rule per rule", er.len == v["n_rules"]))
+        ni = [e for e in o.st.log if e[0] == "n_inputs"][0][1]
+        for r in range(n or 0):
+            rule = er.items[r]
+            m = rule.fields[f_erule.index("matches")]
+            outs = rule.fields[f_erule.index("output_entry_values")]
+            all_true = z3.And([v["_kinds"][(r, i)] == 0 for i in range(ni or 0)] + [z3.BoolVal(True)])
+            import sys as _s
+            if os.environ.get("VERIF_DEBUG"):
+                _s.stderr.write("DBG rule %d m=%r pc=%s\n" % (r, m, [str(c)[:120] for c in o.st.pc]))
+            props.append(("rule %d matches iff all its input entries evaluated to true" % (r + 1), m.e == all_true))
+            okout = ex.concrete(outs.len) == 1 and isinstance(outs.items[0], En) and "Number" in outs.items[0].alts and ex.concrete(outs.items[0].alts["Number"][0].e) == 1000 + r
+            # only the outputs of matching rules reach the result: a non-matching rule's outputs need not be evaluated at all
+            props.append(("rule %d, when it matches, carries the value of its own output entry" % (r + 1), z3.Implies(all_true, z3.BoolVal(bool(okout)))))
+        props.append(("reach:three rules", z3.BoolVal(n == NR)))
+        return props
+
+    def desc(m, v):
+        return {k: model_value(m, x) for k, x in v.items() if not k.startswith("_")}
+
+    def replay(i, rb):
+        """a table with one input a and the witness's rules (entry true -> `-`, false -> `< 0`, null -> `null`... rendered as tests on a = 1);
+        policy ANY / COLLECT list show which rules were taken into account"""
+        hpn = [k for k, c in HP.items() if c == i["hit_policy"]][0]
+        agn = [k for k, c in AG.items() if c == i["aggregator"]][0]
+        attr = {"Unique": 'hitPolicy="UNIQUE"', "Any": 'hitPolicy="ANY"', "Priority": 'hitPolicy="PRIORITY"', "First": 'hitPolicy="FIRST"', "RuleOrder": 'hitPolicy="RULE ORDER"',
+                "OutputOrder": 'hitPolicy="OUTPUT ORDER"', "Collect": 'hitPolicy="COLLECT"'}[hpn]
+        if hpn == "Collect" and agn != "List":
+            attr += ' aggregation="%s"' % agn.upper()
+        nr, ni = i["n_rules"], max(i["n_inputs"], 1)
+        rules, matched = "", []
+        for r in range(nr):
+            ents = ""
+            allt = True
+            for k in range(ni):
+                kind = i.get("r%d_in%d" % (r, k), 0) if k < i["n_inputs"] else 0
+                ents += "<inputEntry><text>%s</text></inputEntry>" % {0: "-", 1: "&lt; 0", 2: "&lt; 0"}[kind]
+                allt = allt and kind == 0
+            rules += "<rule>%s<outputEntry><text>%d</text></outputEntry></rule>" % (ents, 1000 + r)
+            if allt:
+                matched.append(1000 + r)
+        ins = "".join("<input><inputExpression><text>a</text></inputExpression></input>" for _ in range(ni))
+        xml = ('<?xml version="1.0" encoding="UTF-8"?><definitions namespace="https://verif" name="m" id="_m" xmlns="https://www.omg.org/spec/DMN/20191111/MODEL/">'
+               '<inputData name="a" id="_a"><variable name="a" typeRef="number"/></inputData>'
+               '<decision name="d" id="_d"><variable name="d"/><informationRequirement><requiredInput href="#_a"/></informationRequirement>'
+               '<decisionTable %s>%s<output/>%s</decisionTable></decision></definitions>') % (attr, ins, rules)
+        _, out, _ = replay_call(rb, ["model_eval", xml, "d", "{a: 1}"])
+        if not out.startswith("VALUE "):
+            return out.startswith("PANIC"), "replay model: " + out[:120]
+        got = re.sub(r"null\([^)]*\)", "null", out[6:]).strip()
+        if hpn in ("Unique", "Any"):
+            want = str(matched[0]) if len(matched) == 1 else "null"
+        elif hpn in ("First", "Priority"):
+            want = str(matched[0]) if matched else "null"
+        elif hpn in ("RuleOrder", "OutputOrder") or (hpn == "Collect" and agn == "List"):
+            want = "[" + ", ".join(map(str, matched)) + "]" if matched else ("[]" if hpn == "Collect" else "null")
+        else:
+            want = {"Count": str(len(matched)), "Sum": str(sum(matched)) if matched else "null", "Min": str(min(matched)) if matched else "null",
+                    "Max": str(max(matched)) if matched else "null"}[agn]
+        same = got == want or (want in ("null", "[]") and got in ("null", "[]"))
+        return not same, "%s table, rules matching a = 1: %s -> %s, specified %s" % (attr, matched, got[:60], want)
+    jobs.append(lambda c: decide(c, crate, "evaluation/rules_and_dispatch", setup, post, replay, rb, models=[(re.compile(r"^format$|^std::fmt::format$|^alloc::fmt::format$"), m_format_stub)] + fv.VALUE_MODELS,
+                                 unwind=4 * NR + 10, describe=desc, need_reach=["reach:three rules"], budget_s=900, max_cex=8, max_per_label=2,
+                                 prefer=lambda v: z3.And([v[k] != 2 for k in v if k.startswith("r") and "_in" in k])))
 
 
 def wiring_job(check, mirror, rb, crate, jobs):
